@@ -3,6 +3,7 @@ import Swim.Drv.C17
 import Swim.Drv.C10
 import Swim.Drv.Merge
 import Swim.Drv.Codec
+import Swim.Drv.Ingest
 /-! Line-protocol driver: `<PROP> <kind> k=v ...` in, `<PROP> <id> <agree|DISAGREE> <ok|BAD:..> ...` out. -/
 open Swim.Parse
 
@@ -17,6 +18,8 @@ def dispatch (line : String) : String :=
       | "C10" => Swim.Drv.C10.handle kind fs
       | "C11" => Swim.Drv.Codec.handleC11 kind fs
       | "C12" => Swim.Drv.Codec.handleC12 kind fs
+      | "C13" => Swim.Drv.Ingest.handleC13 kind fs
+      | "C14" => Swim.Drv.Ingest.handleC14 kind fs
       | "C16" => Swim.Drv.Codec.handleC16 kind fs
       | "C01" | "C02" | "C07" | "C08" | "C18" => Swim.Drv.Merge.handle prop kind fs
       | _ => "PARSE prop"
